@@ -272,6 +272,14 @@ def check(run, repo):
                     run.fn('%s.%s' % (owner.qual, wname))
                 run_pair(run, I, sp, cname + ('[S_elements]' if sel else ''), wname, tname, q, owner, fn, avail,
                          unit_variants(rkeys, thorough and sel is None, per_mass=True), molw, counter)
+        # an array of temperatures: element by element the same relation (T multiplies its own element)
+        ranks_ = I.order.ranks
+        ranks_.update({'T0': 3, 'T1': 4})
+        arrT = ListV([D.sym('T0'), D.sym('T1')])
+        arrT.is_array = True
+        for wname, tname, q, owner, fn in wrappers_of(repo, ci):
+            run_pair(run, I, sp, cname + '[array T]', wname, tname, q, owner, fn,
+                     {'T': arrT, 'P': D.sym('P'), 'S_elements': None}, ['J/mol/K', 'kJ/kg/K'], molw, counter)
 
     # ---- (d) reactions ------------------------------------------------------------
     for cname, qual in (('Reaction', 'pmutt.reaction.Reaction'), ('ChemkinReaction', 'pmutt.reaction.ChemkinReaction'),
